@@ -5,26 +5,26 @@ namespace Gozod.Gen
 open Gozod.GenEmit
 
 def writerFacts : WriterFacts := {
-  urlImport := true
-  specialOptNonPtrOnly := true
-  optionalOnEveryPtr := true
-  timePtr := false
-  sliceTyped := false
-  mapKeyMatch := false
-  recordTyped := false
-  urlCtor := false
-  ruleApplies := false
-  boundArg := false
-  extraRules := false
-  jsonNumKinds := false
+  urlImport := false
+  specialOptNonPtrOnly := false
+  optionalOnEveryPtr := false
+  timePtr := true
+  sliceTyped := true
+  mapKeyMatch := true
+  recordTyped := true
+  urlCtor := true
+  ruleApplies := true
+  boundArg := true
+  extraRules := true
+  jsonNumKinds := true
 }
 
 /-- analyzer.go: every name of `F, G string` gets its own key; a tag written as an interpreted string literal is read -/
-def analyzerMultiName : Bool := false
-def analyzerTagLiteral : Bool := false
-def analyzerSkipTestFiles : Bool := false
+def analyzerMultiName : Bool := true
+def analyzerTagLiteral : Bool := true
+def analyzerSkipTestFiles : Bool := true
 
 /-- classes `<c>` of the lines `open: property=C13 key=wcompile:notypecheck:<c>:*` of known-findings.txt -/
-def openCompileClasses : List String := ["enum+method", "lazy-self-reference", "time-not-imported", "slice-cannot-infer-T", "record-arguments", "no-method:ZodStruct.Min", "no-method:ZodStruct.Max", "no-method:ZodTime.Min", "no-method:ZodTime.Max", "no-method:ZodBool.Min", "no-method:ZodString.Gt", "constant-not-representable:float-as-integer", "constant-not-representable:overflows-int64", "unused-import"]
+def openCompileClasses : List String := ["lazy-self-reference", "slice-cannot-infer-T"]
 
 end Gozod.Gen
